@@ -50,7 +50,18 @@ const (
 // ErrInjected is the error returned for FailBefore / FailAfter.
 var ErrInjected = errors.New("verif: injected storage error")
 
+// Step is one entry of a script: the first not yet used step whose Match accepts an operation of the bound
+// goroutine fires: Before (if any) runs on that goroutine, unbound for its duration (so that what it does to the
+// storage is not attributed to the caller), then the operation is executed with Mode (Pass/FailBefore/FailAfter).
+type Step struct {
+	Match  func(Op) bool
+	Before func()
+	Mode   Mode
+	used   bool
+}
+
 type rule struct {
+	script  []*Step
 	match   func(Op) bool
 	mode    Mode
 	parked  chan Op
@@ -119,6 +130,26 @@ func (b *Base) Arm(who string, match func(Op) bool, m Mode) {
 	b.mu.Unlock()
 }
 
+// Script installs a list of single-use steps for `who` (replacing an earlier script); nil removes it.
+func (b *Base) Script(who string, steps []*Step) {
+	b.mu.Lock()
+	b.ruleOf(who).script = steps
+	b.mu.Unlock()
+}
+
+// Fired reports how many steps of the script of `who` have fired.
+func (b *Base) Fired(who string) int {
+	b.mu.Lock()
+	defer b.mu.Unlock()
+	n := 0
+	for _, s := range b.ruleOf(who).script {
+		if s.used {
+			n++
+		}
+	}
+	return n
+}
+
 // Disarm cancels an armed mode that did not fire.
 func (b *Base) Disarm(who string) { b.Arm(who, nil, Pass) }
 
@@ -157,6 +188,21 @@ func (b *Base) enter(op Op) Mode {
 	}
 	r := b.ruleOf(who)
 	r.log = append(r.log, op)
+	for _, st := range r.script {
+		if !st.used && st.Match(op) {
+			st.used = true
+			g := gid()
+			delete(b.gids, g)
+			b.mu.Unlock()
+			if st.Before != nil {
+				st.Before()
+			}
+			b.mu.Lock()
+			b.gids[g] = who
+			b.mu.Unlock()
+			return st.Mode
+		}
+	}
 	m := Pass
 	if r.mode != Pass && (r.match == nil || r.match(op)) {
 		m = r.mode
